@@ -87,7 +87,7 @@ def jobs(pid, tier):
                 vrt('C09', [r'q_p1_.*', r'q_p2_c1_.*', r'lq_.*'], bound=3, workers=8, **R),
                 vrt('C11', [r'pool_w[12]_(coawait|runfn|runfnbig|detached|detachedbig)(-(coawait|runfn|runfnbig|detached|detachedbig))?_(stop|dtor|selfstop)'], bound=2, workers=8, **R),
                 vrt('C12', [r'sch_.*'], bound=2, workers=8, **R),
-                vrt('C16', [r'pub.*'], bound=2, workers=8, **R),
+                vrt('C16', [r'pub1_.*', r'pub2_(?!.*poll-poll).*'], bound=2, workers=8, **R),
                 vrt('C17', [r'sf.*'], bound=2, workers=8, **R),
                 vrt('C19', [r'mtsafe_.*'], bound=3, workers=8, **R),
                 vrt('C04', [r'async_.*'], bound=3, workers=4, **R),
@@ -159,7 +159,7 @@ def jobs(pid, tier):
         if q:
             return [seq('C16'), vrt('C16', [r'pub1_.*'], bound=2, workers=2),
                     vrt('C16', [r'pub2_all_(coro-block|coro-coro|block-poll)_pub-batch2-close', r'pub2_recent_coro-block_pub-pub-close'], bound=2, workers=8)]
-        return [seq('C16'), vrt('C16', [r'pub1_.*'], bound=3, workers=2), vrt('C16', [r'pub2_.*'], bound=2, workers=8)]
+        return [seq('C16'), vrt('C16', [r'pub1_.*'], bound=3, workers=2), vrt('C16', [r'pub2_(?!.*poll-poll).*'], bound=2, workers=8)]
     if pid == 'C06':
         return [seq('C06')]
     return []
